@@ -39,7 +39,11 @@ def contract_modules():
 
 
 # bounded stand-ins per property (pyvc/bounded.py); C19 is decided by its bounded item alone
-BOUNDED = {'C19': ['rays'], 'C06': ['occlusion', 'rays'], 'C12': ['dijkstra'], 'C01': ['dijkstra']}
+BOUNDED = {'C19': ['rays'], 'C06': ['occlusion', 'rays'], 'C12': ['dijkstra'], 'C01': ['dijkstra'],
+           'C15': ['representations'], 'C16': ['representations']}
+
+# properties whose deciding part is a bounded enumeration (a few helper lemmas are proved on the side)
+EXPLORATION_LEVEL = {'C15', 'C16', 'C19'}
 
 _V = None
 
@@ -366,7 +370,13 @@ def report(prop, results, ledger, tier, seed, t_start, only_mode=False):
         bounded_runs.append(br)
         bounded.append({'what': br['what'], 'bound': br['bound'], 'evaluations': br['evaluations'],
                         'failures': len(br['failures']), 'exhaustive': br.get('exhaustive', False)})
-        for k, f in enumerate(br['failures'][:1]):
+        seen_what = set()
+        for k, f in enumerate(br['failures']):
+            if f.get('prop') and f['prop'] != prop:
+                continue   # this failing case belongs to another property served by the same enumeration
+            if f.get('what') in seen_what:
+                continue
+            seen_what.add(f.get('what'))
             oid = f'bounded.{item}/{f.get("what", "failure").replace(" ", "-")[:60]}'
             rp_path = os.path.join(VERIF, 'replays', f"{prop}-{oid.replace('/', '-')}.json")
             json.dump({'property': prop, 'obligation': oid, 'verdict': 'bounded-enumeration', 'inputs': f,
@@ -415,7 +425,7 @@ def report(prop, results, ledger, tier, seed, t_start, only_mode=False):
         'wall_s': round(time.time() - t_start, 3),
         'violations': violations,
     }
-    if n_ob == 0 and bounded_runs:
+    if (n_ob == 0 or prop in EXPLORATION_LEVEL) and bounded_runs:
         ev['level'] = 'exploration'
         ev['coverage'].update({
             'evaluations': sum(b['evaluations'] for b in bounded_runs),
@@ -426,8 +436,9 @@ def report(prop, results, ledger, tier, seed, t_start, only_mode=False):
             'exhaustive': all(b.get('exhaustive') for b in bounded_runs),
             'explanation': 'bounded exhaustive enumeration on the real functions (no deductive part: float trigonometry)',
         })
-        for k_ in ('obligations', 'discharged'):
-            ev['coverage'].pop(k_, None)
+        if n_ob == 0:
+            for k_ in ('obligations', 'discharged'):
+                ev['coverage'].pop(k_, None)
     json.dump(ev, open(os.path.join(VERIF, 'evidence', f'{prop}.json'), 'w'), indent=1)
     for l in lines:
         print(l)
